@@ -22,8 +22,9 @@ LEVEL = "exploration"
 PROPS = ["C04", "C05", "C07", "C08", "C09", "C10", "C11", "C12", "C18", "C19", "C20"]
 
 
-class SimTimeout(Exception):
-    pass
+class SimTimeout(BaseException):
+    """Wall-clock overrun of one scenario.  Not an Exception: csvpath's own broad
+    `except Exception` handlers must not be able to swallow it."""
 
 
 def load_prop(pid):
@@ -54,13 +55,15 @@ def execute_guarded(prop, sc, limit_s=90):
     from . import ops, seams, extfuncs
 
     old = signal.signal(signal.SIGALRM, _alarm)
-    signal.setitimer(signal.ITIMER_REAL, limit_s)
+    # repeating: if the first delivery lands inside a handler that discards it, the next one gets through
+    signal.setitimer(signal.ITIMER_REAL, limit_s, 3)
     cwd = os.getcwd()
     seams.SimClock.total_advance = seams.SimClock.total_advance * 0
     seams.SimClock.cumulative = seams.SimClock.cumulative * 0
     try:
         out = prop.execute(sc)
     except SimTimeout:
+        signal.setitimer(signal.ITIMER_REAL, 0)
         out = {"violations": [{"clause": "hang", "detail": f"scenario did not finish within {limit_s}s wall", "facts": {}}]}
     except Exception as e:  # noqa: BLE001
         if ops.in_repo(e):
@@ -91,9 +94,16 @@ def execute_guarded(prop, sc, limit_s=90):
     return out
 
 
+EARLY_STOP = 48  # unknown violations after which a batch stops searching
+
+
 def _worker_init(base):
+    from .forkutil import die_with_parent
+
+    die_with_parent()
     os.environ["VERIFSIM_BASE"] = base
     faulthandler.enable()
+    faulthandler.register(signal.SIGUSR1, file=sys.__stderr__, all_threads=False)
     from . import ops
 
     sys.stdout = ops.SINK
@@ -396,6 +406,7 @@ def run_check(pid, tier="quick", base_seed=0, n=None, workers=None, wall_cap=Non
     idx_chunks = [list(range(s, min(n, s + chunk))) for s in range(0, n, chunk)]
     ctx = mp.get_context("fork")
     timed_out = False
+    early_stop = False
     with cf.ProcessPoolExecutor(max_workers=workers, mp_context=ctx, initializer=_worker_init, initargs=(base,)) as ex:
         futs = {ex.submit(_run_chunk, pid, base_seed, c, tier): c for c in idx_chunks}
         try:
@@ -439,13 +450,19 @@ def run_check(pid, tier="quick", base_seed=0, n=None, workers=None, wall_cap=Non
                         violations.append((o["seed"], o["i"], o.get("scenario"), v))
                     if unk and o.get("prefix_scenarios"):
                         prefixes[o["seed"]] = o["prefix_scenarios"]
+                if len(violations) >= EARLY_STOP:
+                    # the verdict is already "violated": do not spend the rest of the budget (a broken tree can
+                    # also be a very slow one); what was covered until here is what the evidence reports
+                    early_stop = True
+                    break
         except cf.TimeoutError:
             timed_out = True
+        if timed_out or early_stop:
             for fut in futs:
                 fut.cancel()
             for p in list(getattr(ex, "_processes", {}).values()):
                 try:
-                    p.terminate()
+                    p.kill()  # the chunk children die with their worker (PR_SET_PDEATHSIG)
                 except Exception:  # noqa: BLE001
                     pass
     t_search = time.time() - t_start
@@ -529,7 +546,7 @@ def run_check(pid, tier="quick", base_seed=0, n=None, workers=None, wall_cap=Non
 
     # ---- determinism sample: ~2% of the seeds again in a fresh interpreter ----
     det = {"pairs": 0, "mismatches": []}
-    if not timed_out and digests:
+    if not timed_out and not early_stop and digests:
         k = max(4, min(40, len(digests) // 50))
         pick = sorted(digests)[:: max(1, len(digests) // k)][:k]
         try:
